@@ -1,6 +1,8 @@
 import Mouette.Lemmas.TutteSquare
 import Mouette.Lemmas.TutteLap
 import Mouette.Lemmas.TutteBridge
+import Mouette.Lemmas.TutteResidual
+import Mouette.Lemmas.TutteCircle
 /-!
 # C17 — Tutte's embedding (partial)
 
@@ -61,6 +63,26 @@ theorem interior_is_weighted_average_div (cot : Option (List Rat)) (F : List (Li
   have := interior_is_weighted_average cot F u r h
   field_simp
   linarith
+
+/-- The exact check `R1` of the driver (`residualZero`) gives the hypothesis of the two theorems above: for EVERY case
+the driver accepts — `H` returned by the model's Gauss–Jordan with `residualZero … H = true`, `freeInds ++ bndInds`
+duplicate-free and containing every vertex of the (triangle) faces — and for every border data `uB`, the function `u`
+that is `uB` on the border vertices and `H · uB` on the free vertices puts every free vertex at the weighted average of
+its neighbours. -/
+theorem accepted_case_weighted_average (cot : Option (List Rat)) (F : List (List Nat)) (free bnd : List Nat)
+    (H : List (List Rat)) (uB : List Rat) (u : Nat → Rat)
+    (tri : ∀ f, f ∈ F → f.length = 3)
+    (hres : residualZero (lapTriplets cot F) free bnd H = true)
+    (nd : (free ++ bnd).Nodup) (cover : ∀ f, f ∈ F → ∀ v, v ∈ f → v ∈ free ++ bnd)
+    (hI : List.Forall₂ (fun c hrow => u c = dotB bnd.length uB hrow) free H)
+    (hB : ∀ b, b < bnd.length → u (bnd.getD b 0) = uB.getD b 0) :
+    ∀ r, r ∈ free → wSum (lapTriplets cot F) r * u r = wDot (lapTriplets cot F) u r := by
+  intro r hr
+  apply interior_is_weighted_average
+  apply mulRow_zero_of_residualZero (lapTriplets cot F) free bnd H uB u hres nd hI hB r hr
+  intro t ht _
+  obtain ⟨f, hf, _, hc⟩ := mem_lapTripletsFrom cot F 0 t tri ht
+  exact cover f hf _ hc
 
 /-! ## orient2d (P0): the exact predicate used as certificate checker -/
 
@@ -130,6 +152,38 @@ theorem square_boundary_length (n : Nat) : (squareBoundary n).length = n := by
 theorem square_boundary_source (n : Nat) :
     (genSquare n C17.cornerU (C17.loopU n)).zip (genSquare n C17.cornerV (C17.loopV n)) = squareBoundary n := by
   rw [bridge_U, bridge_V]; rfl
+
+/-! ## circle boundary (P1), over ℝ with Mathlib's `Real.cos`, `Real.sin` -/
+
+/-- the exact circle position of border vertex `i` is `(cos 2πt, sin 2πt)` for the fraction of a turn `t = i/n` that
+the executable model hands to the harness -/
+theorem circle_boundary_model (n i : Nat) (hi : i < n) :
+    ∃ t : Rat, (circleTurns n)[i]? = some t ∧
+      circlePos n i = (Real.cos (2 * Real.pi * (t : ℝ)), Real.sin (2 * Real.pi * (t : ℝ))) :=
+  ⟨(i : Rat) / (n : Rat), circleTurns_getElem n i hi, by unfold circlePos; rw [circleAngle_eq_turn]⟩
+
+/-- the circle positions lie on the unit circle and are pairwise distinct (injectivity of `i ↦ 2πi/n` on `[0, 2π)`) -/
+theorem circle_boundary_distinct (n i j : Nat) (hi : i < n) (hj : j < n) (h : circlePos n i = circlePos n j) :
+    i = j := circlePos_injective hi hj h
+
+theorem circle_boundary_on_circle (n i : Nat) : (circlePos n i).1 ^ 2 + (circlePos n i).2 ^ 2 = 1 :=
+  circlePos_on_circle n i
+
+/-- strictly convex position: `p_i` is the unique maximiser among all positions of `x ↦ ⟨x, p_i⟩`, and it is not on
+the segment between two other positions -/
+theorem circle_boundary_convex_position (n i j : Nat) (hi : i < n) (hj : j < n) (hij : i ≠ j) :
+    (circlePos n j).1 * (circlePos n i).1 + (circlePos n j).2 * (circlePos n i).2 < 1 ∧
+    ∀ k, k < n → i ≠ k → ∀ t : ℝ, 0 ≤ t → t ≤ 1 →
+      ((1 - t) * (circlePos n j).1 + t * (circlePos n k).1, (1 - t) * (circlePos n j).2 + t * (circlePos n k).2)
+        ≠ circlePos n i :=
+  ⟨circlePos_exposed hi hj hij, fun _ hk hik t ht0 ht1 => circlePos_not_between hi hj hk hij hik t ht0 ht1⟩
+
+/-- border order: any three positions taken in the order of the border cycle are strictly counter-clockwise, i.e.
+the border polygon is strictly convex and traversed exactly once -/
+theorem circle_boundary_cyclic_order (n i j k : Nat) (hij : i < j) (hjk : j < k) (hk : k < n) :
+    0 < ((circlePos n j).1 - (circlePos n i).1) * ((circlePos n k).2 - (circlePos n i).2)
+      - ((circlePos n k).1 - (circlePos n i).1) * ((circlePos n j).2 - (circlePos n i).2) :=
+  circlePos_ccw hij hjk hk
 
 /-! ## non-vacuity / samples (tests, not proofs of the general statement) -/
 
